@@ -52,20 +52,31 @@ func (core *JApiCore) compileUserTypes() *jerr.JApiError {
 
 func (core *JApiCore) buildUserTypes() *jerr.JApiError {
 	err := core.rawUserTypes.Each(func(k string, d *directive.Directive) error {
+		var s schema.Schema
 		switch notation.SchemaNotation(d.NamedParameter("SchemaNotation")) {
 		case "", notation.SchemaNotationJSight:
 			if !d.BodyCoords.IsSet() {
 				return d.KeywordError(jerr.BodyIsEmpty)
 			}
-			core.userTypes.Set(k, jschema.New(k, d.BodyCoords.Read()))
+			s = jschema.New(k, d.BodyCoords.Read())
 		case notation.SchemaNotationRegex:
 			if !d.BodyCoords.IsSet() {
 				return d.KeywordError(jerr.BodyIsEmpty)
 			}
-			core.userTypes.Set(k, regex.New(k, d.BodyCoords.Read()))
+			s = regex.New(k, d.BodyCoords.Read())
 		default:
-			// nothing
+			return nil
 		}
+
+		// Rules have to be added before any other type gets a chance to load this
+		// one: a loaded schema does not accept rules any more.
+		for n, r := range core.rules {
+			if err := s.AddRule(n, r); err != nil {
+				return jschemaToJAPIError(err, d)
+			}
+		}
+
+		core.userTypes.Set(k, s)
 		return nil
 	})
 	if err != nil {
@@ -91,13 +102,6 @@ func (core *JApiCore) compileUserTypeWithAllDependencies(name string) error {
 	}
 
 	dd := core.rawUserTypes
-
-	// Add rules before we try to do something with the type.
-	for n, r := range core.rules {
-		if err := currUT.AddRule(n, r); err != nil {
-			return jschemaToJAPIError(err, dd.GetValue(n))
-		}
-	}
 
 	tt, err := fetchUsedUserTypes(currUT, core.userTypes)
 	if err != nil {
